@@ -4,7 +4,7 @@ from datetime import timedelta
 
 import random
 
-from harness.legs import cfg_text, leg_m, leg_mutant, leg_r, leg_t_gen
+from harness.legs import cfg_text, gen_traces, leg_m, leg_mutant, leg_r, leg_t_gen
 from harness.vloop import VClock, VLoop
 
 SPEC = "Throttle"
@@ -169,7 +169,7 @@ def run(rep, work, tier, seed):
     # leg T: arrival patterns of up to 12 calls recorded from the real throttle, validated by a trace module generated
     # from Throttle.tla (internal Decide / Wake / Settle steps run silently between the logged events)
     rnd = random.Random(seed * 17 + 3)
-    traces = [gen_trace(rnd) for _ in range(120 if tier == "quick" else 1500)]
+    traces = gen_traces(rep, lambda: gen_trace(rnd), 120 if tier == "quick" else 1500)
     leg_t_gen(rep, work, SPEC, f"trace_{tier}", traces,
               variables=["limit", "period", "pform", "now", "entries", "lockq", "pc", "wake", "arrived", "starts", "res", "obs"],
               constants=dict(NCalls=12, Limits="1..4", Periods="{2, 3, 5}", MaxT=100000, Bug='"none"'),
